@@ -1,6 +1,6 @@
 """C01: a compiled field returns exactly what composing the user functions returns."""
 import json
-from .. import suite_vm, oracle_vm
+from .. import suite_vm, oracle_vm, suite_compile
 from ..runner import Violation
 from ..par import pmap
 
@@ -50,9 +50,16 @@ def run(tier, seed, res, lean):
     per = 120 if tier == 'quick' else 600
     jobs = [(seed * 1000003 + i, per, 18 if i % 4 else 40) for i in range(shards)]
     outs = pmap(_shard, jobs)
+    comp = pmap(suite_compile.run_shard, [(seed * 31337 + i, 40 if tier == 'quick' else 300) for i in range(16)])
+    for b in [b for o in comp for b in o[1]][:4]:
+        res.violations.append(Violation('c01-compile-order', b['msg'][:500], {'suite': 'S-COMPILE', **b}))
     stats = merge_stats([o[0] for o in outs])
     bad = [b for o in outs for b in o[1]]
     oracle_bad = [b for o in outs for b in o[2]]
+    for b in [b for b in oracle_bad if b['msg'].startswith('HIDDEN-CHECKIDS')][:2]:
+        res.violations.append(Violation('c01-checkids-bypassed', b['msg'],
+                                        {'suite': 'S-VM', 'signature': {'kind': 'checkids_upstream_of_shared_cache'}, **b}))
+    oracle_bad = [b for b in oracle_bad if not b['msg'].startswith('HIDDEN-CHECKIDS')]
     for b in oracle_bad[:10]:
         small = shrink(b)
         res.violations.append(Violation('c01-oracle', small['msg'], {'suite': 'S-VM', **small}))
@@ -62,7 +69,7 @@ def run(tier, seed, res, lean):
             'c01-correspondence', 'vm.py/edges.py/graph.py and CM.Model.VM disagree; theorems C01.* no longer tied to the code',
             {'suite': 'S-VM', 'theorems': list(lean['theorems']), **b}, found_input=False))
     res.coverage.update({
-        'evaluations': stats['calls'], 'distinct_nontrivial': stats['nontrivial'], 'rule': RULE,
+        'evaluations': stats['calls'] + sum(o[0] for o in comp), 'tuple_requests_through_GraphCompiler': sum(o[0] for o in comp), 'distinct_nontrivial': stats['nontrivial'], 'rule': RULE,
         'programs': stats['cases'], 'disagreements_checked': len(bad),
         'samples': [outs[0][3]], 'distribution': {k: stats[k] for k in ('kinds', 'errors', 'sizes')},
         'model_vm_vs_denotation_mismatches': stats['den_mismatch'],
@@ -134,3 +141,8 @@ def replay(obj, kind):
         if msg:
             return False, 'still failing on the real code: ' + msg
     return True, 'the oracle passes on the recorded case'
+
+
+def witness_f10():
+    from .c04 import witness_f10 as w
+    return w()
